@@ -289,9 +289,24 @@ func (d *Decimal) round() (int64, error) {
 		return 0, err
 	}
 
-	floatValue := float64(ud.n.Int64()) / math.Pow10(int(ud.scale))
-	roundedValue := math.Round(floatValue)
-	return int64(roundedValue), nil
+	if ud.scale <= 0 {
+		if !ud.n.IsInt64() {
+			return 0, &strconv.NumError{Func: "ParseInt", Num: d.String(), Err: strconv.ErrRange}
+		}
+		return ud.n.Int64(), nil
+	}
+
+	// Exact arithmetic: a float64 cannot hold a coefficient of more than about 15 digits.
+	pow := new(big.Int).Exp(big.NewInt(10), big.NewInt(int64(ud.scale)), nil)
+	quo, rem := new(big.Int).QuoRem(ud.n, pow, new(big.Int))
+	if rem.Abs(rem).Lsh(rem, 1).Cmp(pow) >= 0 {
+		// Round half away from zero, as math.Round does.
+		quo.Add(quo, big.NewInt(int64(ud.n.Sign())))
+	}
+	if !quo.IsInt64() {
+		return 0, &strconv.NumError{Func: "ParseInt", Num: d.String(), Err: strconv.ErrRange}
+	}
+	return quo.Int64(), nil
 }
 
 // Truncate returns a new decimal, truncated to the given number of
